@@ -141,6 +141,11 @@ class PITFrozenDilationMasker(PITDilationMasker):
         self.gamma.requires_grad = False
 
     @property
+    def theta(self) -> torch.Tensor:
+        # a frozen mask never receives gradients, whatever the value of `requires_grad`
+        return super().theta.detach()
+
+    @property
     def trainable(self) -> bool:
         return self.gamma.requires_grad
 
